@@ -1,5 +1,6 @@
 import JwtProofs.Lists
 import JwtProofs.Text
+import Props.FnTie
 /-!
 # C20 — tag, string and source-network lists behave as duplicate-free ordered sets
 
